@@ -75,11 +75,11 @@ fn ieee_f4_add_nonneg() {
     assert!(x + p >= x);
 }
 #[kani::proof]
-fn ieee_f5_ratio_small() {
-    // 0 <= c <= n, 1 <= n <= 2^24: 0 <= c/n <= 1 and n/n == 1 (f64 quotient of exactly converted integers)
+fn ieee_f5_ratio_u32() {
+    // 0 <= c <= n, 1 <= n < 2^32: 0 <= c/n <= 1 and n/n == 1 (f64 quotient of exactly converted integers); about 3 minutes: thorough tier
     let c: u32 = kani::any();
     let n: u32 = kani::any();
-    kani::assume(n >= 1 && n <= (1 << 24) && c <= n);
+    kani::assume(n >= 1 && c <= n);
     let q = c as f64 / n as f64;
     assert!(q >= 0.0 && q <= 1.0);
     if c == n { assert!(q == 1.0); }
